@@ -29,10 +29,28 @@ package outbound
 // of range: an invalid policy) is reported, never papered over
 //@   at call _select#3 assert errors.Is(err, ErrNoAliveDialer)
 
-//@ func preferAlternateSelectionNetworkType
-//@   trusted
+// C15 (a node is used for a network type only if believed alive there): the alternate of a network type is the
+// same type in the OTHER IP family (a fresh copy, every other field kept); it replaces the requested type only
+// when the node is not alive for the requested one AND alive for the alternate.
 //@ func alternateNetworkType
-//@   trusted
+//@   ensures networkType == nil ==> result == nil
+//@   ensures networkType != nil && networkType.IpVersion != consts.IpVersionStr_4 && networkType.IpVersion != consts.IpVersionStr_6 ==> result == nil
+//@   ensures networkType != nil && networkType.IpVersion == consts.IpVersionStr_4 ==> result != nil && fresh(result) && result.IpVersion == consts.IpVersionStr_6
+//@   ensures networkType != nil && networkType.IpVersion == consts.IpVersionStr_6 ==> result != nil && fresh(result) && result.IpVersion == consts.IpVersionStr_4
+//@   ensures result != nil ==> result.L4Proto == networkType.L4Proto && result.IsDns == networkType.IsDns && result.UdpHealthDomain == networkType.UdpHealthDomain
+//@ func preferAlternateSelectionNetworkType
+//@   anchorsonly
+//@   dyncalls noeffect
+//@   ghostfn altv() *dialer.NetworkType
+//@   at call MustGetAlive#1 assert a0 == d && a1 == networkType
+//@   at call alternateNetworkType#1 assert a0 == networkType && !d.MustGetAlive(networkType)
+//@   at call alternateNetworkType#1 assume-after result == altv()
+//@   at call MustGetAlive#2 assert a0 == d && a1 == altv() && altv() != nil
+//@   ensures d == nil || networkType == nil ==> result == networkType
+//@   ensures result == networkType || (calls("alternateNetworkType") == 1 && result == altv() && altv() != nil)
+//@ func policyNeedsAliveState
+//@   anchorsonly
+//@   ensures result <==> policy != consts.DialerSelectionPolicy_Fixed
 
 // the health domains a selection tries, in order: the requested one; for data UDP under a non-fixed
 // policy additionally DNS-UDP and then TCP of the same IP family.
